@@ -85,10 +85,126 @@ def build_h1():
     return b
 
 
+# ---------------------------------------------------------------------------------------------------------------------
+# h2: the journal scan itself (ReserveJournalExt::delegated_debits_since + is_root_value_transfer + balance_before_entry)
+NA2 = 3      # abstract addresses
+NJ = 3       # journal entries (bound)
+
+
+def t_txkind(tr, ty, name, dims, storage, g=None):
+    from rtypes import parse_type
+    return tr.make_enum(ty, name, dims, storage, [("Create", []), ("Call", [parse_type("Address")])], g)
+
+
+def stubs2():
+    def is_7702(tr, c):
+        loc = tr.deref(c.args[0])
+        c.ret(VScalar(f"(({tr.lv(Loc(loc.node.f('id'), loc.idxs))} & 1) != 0)", "_Bool"))
+    return {"Bytecode::is_eip7702": is_7702, "<Level as PartialOrd>::le": sc.m_level_le}
+
+
+def cfg2():
+    import glob, os
+    ov = revm_types.base_overrides()
+    ov.update(revm_models.type_overrides(WIDE))
+    ov["TxKind"] = t_txkind
+    ov.pop("TxEnv", None)       # the real field list of revm-context's TxEnv (parsed from the registry sources)
+    for k in ("DB", "TransientStorage", "Log", "JournalCfg", "WarmAddresses", "PhantomData", "EvmStorage", "AccessList", "Bytes",
+              "RecoveredAuthorization", "SignedAuthorization"):
+        ov[k] = revm_types.unit
+    r = revm_models.registry_root()
+    extra = revm_models.extra_src_roots()
+    for pat in ("revm-context-interface-19*/src",):
+        extra += [q for q in glob.glob(os.path.join(r, pat)) if os.path.isdir(q)]
+    return {"type_overrides": ov, "stubs": stubs2(), "cap": NJ, "noops": [r"^metrics::"], "dead_calls": sc.TRACING_DEAD,
+            "opaque_types": [r"tracing"], "consts": revm_models.consts(), "extra_src": extra,
+            "key_caps": {"Address": NA2}, "key_cap": NA2, "set_iter_cap": NA2,
+            "aliases": {"EvmState": "HashMap<Address, Account>"},
+            "loops": {"*": {"*": (NJ + 2, "assert")}}}
+
+
+def build_h2():
+    def b(tr):
+        H = hz.Harness(tr, "c13_h2")
+        j = H.local("journal", "Journal<DB, JournalEntry>")
+        tx = H.local("tx", "TxEnv")
+        ck = H.local("ck", "JournalCheckpoint")
+        out = H.local("out", "Vec<DelegatedDebit>")
+        ent = H.nav(j, "inner.journal.e")
+        jl = H.lv(j, "inner.journal.len")
+        st = H.nav(j, "inner.state")
+        V = lambda name: H.variant(ent, "", name)
+        BT, AD, BC, AT = V("BalanceTransfer"), V("AccountDestroyed"), V("BalanceChange"), V("AccountTouched")
+        # ---- arbitrary journal of <= NJ entries of the four kinds that matter (AccountTouched stands for every other kind)
+        H.c(f"{jl} = nondet_usize(); __CPROVER_assume({jl} <= {NJ});")
+        for i in range(NJ):
+            d = H.lv(ent, "d", [i])
+            H.c(f"{d} = nondet_uchar(); __CPROVER_assume({d} == {BT} || {d} == {AD} || {d} == {BC} || {d} == {AT});")
+            for path in ("BalanceTransfer.from", "BalanceTransfer.to", "AccountDestroyed.address", "AccountDestroyed.target", "BalanceChange.address", "AccountTouched.address"):
+                H.c(f"{H.lv(ent, path, [i])} = nondet_uchar(); __CPROVER_assume({H.lv(ent, path, [i])} < {NA2});")
+            for path in ("BalanceTransfer.balance", "AccountDestroyed.had_balance", "BalanceChange.old_balance"):
+                H.c(f"{H.lv(ent, path, [i])} = nondet_uchar();")
+        # ---- arbitrary journal state: presence, balance, code (None / Some(id); odd id = EIP-7702 designator)
+        for a in range(NA2):
+            H.c(f"{H.lv(st, 'present.e', [a])} = nondet_bool(); {H.lv(st, 'keys.e', [a])} = {a};")
+            H.c(f"{H.lv(st, 'vals.e.info.balance', [a])} = nondet_uchar(); {H.lv(st, 'vals.e.info.code.d', [a])} = nondet_bool(); {H.lv(st, 'vals.e.info.code.Some.0.id', [a])} = nondet_uchar();")
+        # ---- arbitrary transaction (caller, value, CALL target or CREATE) and checkpoint
+        H.c(f"{H.lv(tx, 'caller')} = nondet_uchar(); __CPROVER_assume({H.lv(tx, 'caller')} < {NA2}); {H.lv(tx, 'value')} = nondet_uchar();")
+        H.c(f"{H.lv(tx, 'kind.d')} = nondet_bool(); {H.lv(tx, 'kind.Call.0')} = nondet_uchar(); __CPROVER_assume({H.lv(tx, 'kind.Call.0')} < {NA2});")
+        H.c(f"{H.lv(ck, 'journal_i')} = nondet_usize(); __CPROVER_assume({H.lv(ck, 'journal_i')} <= {jl});")
+        H.call("<Journal as ReserveJournalExt>::delegated_debits_since", [H.ref(j), VLoc(Loc(ck, [])), H.ref(tx)], out)
+        # ---- oracle, written directly over the harness state
+        H.cvar("root_idx", "usize", shared=False); H.cvar("first", "usize", dims=[NA2], shared=False); H.cvar("before", WIDE, dims=[NA2], shared=False)
+        H.cvar("want", "_Bool", dims=[NA2], shared=False); H.cvar("seen", "unsigned char", dims=[NA2], shared=False)
+        call_i = H.variant(tx, "kind", "Call")
+        H.c(f"root_idx = 99;")
+        for i in range(NJ):
+            d = H.lv(ent, "d", [i])
+            H.c(f"if (root_idx == 99 && {i} >= {H.lv(ck, 'journal_i')} && {i} < {jl} && {H.lv(tx, 'value')} != 0 && {d} == {BT} && {H.lv(ent, 'BalanceTransfer.from', [i])} == {H.lv(tx, 'caller')} && "
+                f"{H.lv(ent, 'BalanceTransfer.balance', [i])} == {H.lv(tx, 'value')} && ({H.lv(tx, 'kind.d')} != {call_i} || {H.lv(ent, 'BalanceTransfer.to', [i])} == {H.lv(tx, 'kind.Call.0')})) root_idx = {i};")
+        for a in range(NA2):
+            deleg = f"({H.lv(st, 'present.e', [a])} && {H.lv(st, 'vals.e.info.code.d', [a])} == {H.variant(H.nav(st, 'vals.e.info.code'), '', 'Some')} && ({H.lv(st, 'vals.e.info.code.Some.0.id', [a])} & 1))"
+            H.c(f"first[{a}] = 99; seen[{a}] = 0;")
+            for i in range(NJ):
+                d = H.lv(ent, "d", [i])
+                debit = (f"(({d} == {BT} && {H.lv(ent, 'BalanceTransfer.from', [i])} == {a} && {H.lv(ent, 'BalanceTransfer.to', [i])} != {a} && {H.lv(ent, 'BalanceTransfer.balance', [i])} != 0) || "
+                         f"({d} == {AD} && {H.lv(ent, 'AccountDestroyed.address', [i])} == {a} && {H.lv(ent, 'AccountDestroyed.had_balance', [i])} != 0))")
+                H.c(f"if (first[{a}] == 99 && {i} >= {H.lv(ck, 'journal_i')} && {i} < {jl} && {i} != root_idx && {debit}) first[{a}] = {i};")
+            H.c(f"want[{a}] = {deleg} && first[{a}] != 99;")
+            # the balance before the first protected debit: undo the balance journal from the end back to it (saturating, as the code documents)
+            H.c(f"before[{a}] = {H.lv(st, 'vals.e.info.balance', [a])};")
+            for i in reversed(range(NJ)):
+                d = H.lv(ent, "d", [i])
+                val_bt, val_ad = H.lv(ent, 'BalanceTransfer.balance', [i]), H.lv(ent, 'AccountDestroyed.had_balance', [i])
+                add = lambda v: f"before[{a}] = (({WIDE})(before[{a}] + {v}) < before[{a}]) ? ({WIDE})~({WIDE})0 : ({WIDE})(before[{a}] + {v});"
+                subt = lambda v: f"before[{a}] = (before[{a}] > {v}) ? ({WIDE})(before[{a}] - {v}) : ({WIDE})0;"
+                H.c(f"if ({i} < {jl} && {i} >= first[{a}]) {{ "
+                    f"if ({d} == {BT}) {{ if ({H.lv(ent, 'BalanceTransfer.from', [i])} == {a} && {H.lv(ent, 'BalanceTransfer.to', [i])} != {a}) {{ {add(val_bt)} }} else if ({H.lv(ent, 'BalanceTransfer.to', [i])} == {a} && {H.lv(ent, 'BalanceTransfer.from', [i])} != {a}) {{ {subt(val_bt)} }} }} "
+                    f"else if ({d} == {AD}) {{ if ({H.lv(ent, 'AccountDestroyed.address', [i])} == {a}) {{ {add(val_ad)} }} else if ({H.lv(ent, 'AccountDestroyed.target', [i])} == {a}) {{ {subt(val_ad)} }} }} "
+                    f"else if ({d} == {BC} && {H.lv(ent, 'BalanceChange.address', [i])} == {a}) {{ before[{a}] = {H.lv(ent, 'BalanceChange.old_balance', [i])}; }} }}")
+        ol = H.lv(out, "len")
+        H.assert_(f"{ol} == (usize)(want[0] + want[1] + want[2])", "one candidate per delegated account with a surviving protected debit after the checkpoint (root value transfer excluded), no other")
+        for k in range(NA2):
+            ad = H.lv(out, "e.address", [k]); bb = H.lv(out, "e.balance_before", [k]); fb = H.lv(out, "e.final_balance", [k])
+            H.c(f"if ({k} < {ol} && {ad} < {NA2}) seen[{ad}]++;")
+            H.assert_(f"!({k} < {ol}) || ({ad} < {NA2} && want[{ad}])", f"candidate {k} is a delegated account with a surviving protected debit")
+            H.assert_(f"!({k} < {ol} && {ad} < {NA2}) || {fb} == {H.nav(st, 'vals.e.info.balance').name}[{ad}]", f"candidate {k}: final balance is the journal state's balance")
+            H.assert_(f"!({k} < {ol} && {ad} < {NA2}) || {bb} == before[{ad}]", f"candidate {k}: balance_before is the balance immediately before the account's FIRST surviving protected debit")
+        H.assert_(" && ".join(f"seen[{a}] <= 1" for a in range(NA2)), "no account is reported twice")
+        H.cover(f"{ol} == 2", "two delegated accounts debited")
+        H.cover(f"{ol} == 1 && root_idx != 99", "a root value transfer skipped and a protected debit found")
+        H.cover(f"want[0] && first[0] == 0 && {jl} == 3 && {H.lv(ent, 'd', [2])} == {BT} && {H.lv(ent, 'BalanceTransfer.from', [2])} == 0 && {H.lv(ent, 'BalanceTransfer.to', [2])} != 0 && {H.lv(ent, 'BalanceTransfer.balance', [2])} != 0 && before[0] != {H.lv(st, 'vals.e.info.balance', [0])}", "two debits of the same account with entries between them")
+        return H
+    return b
+
+
 def specs(tier):
     return [Spec("h1_violation_predicate", build_h1(), cfg=cfg(), unwind=5, timeout=1800,
                  desc="real WithReserveHandler::has_reserve_violation; journal scan and planner are solver-chosen oracles",
-                 bounds={"candidates": 2, "value_bits": 8})]
+                 bounds={"candidates": 2, "value_bits": 8}),
+            Spec("h2_journal_scan", build_h2(), cfg=cfg2(), unwind=NJ + 3, timeout=1800,
+                 desc="real ReserveJournalExt::delegated_debits_since + is_root_value_transfer + balance_before_entry over ANY journal of <= 3 balance-relevant entries, any journal state of 3 accounts, any checkpoint and transaction; oracle written over the harness state",
+                 bounds={"journal_entries": NJ, "addresses": NA2, "value_bits": 8})]
 
 
 def extra_results(tier):
